@@ -76,6 +76,9 @@ func (a *Application) executePassthroughRequest(
 	a.logRequestResult(pr, err)
 
 	if err != nil {
+		// the response may already have started (nothing more can be written then), but the
+		// request failed: translator metrics must not count it as a success
+		pr.hadError = true
 		// only write error if response hasn't started
 		if w.Header().Get(constants.HeaderContentType) == "" {
 			a.writeTranslatorError(w, trans, pr, fmt.Errorf("proxy error: %w", err), http.StatusBadGateway)
@@ -150,6 +153,9 @@ func (a *Application) executeTranslationRequest(
 	a.logRequestResult(pr, proxyErr)
 
 	if proxyErr != nil {
+		// the response may already have started (nothing more can be written then), but the
+		// request failed: translator metrics must not count it as a success
+		pr.hadError = true
 		// only write error if response hasn't started
 		if w.Header().Get(constants.HeaderContentType) == "" {
 			a.writeTranslatorError(w, trans, pr, fmt.Errorf("proxy error: %w", proxyErr), http.StatusBadGateway)
